@@ -3,6 +3,7 @@
 //! §7.4), not from dust-dds.
 
 use crate::shared::{decoders::Decoder, palette::Src};
+use std::sync::atomic::{AtomicBool, AtomicU64, Ordering};
 
 #[derive(Clone, Copy, PartialEq, Eq, Debug)]
 pub enum Shape {
@@ -110,7 +111,22 @@ pub fn likely_length_words(b: &[u8], base: usize, le: bool) -> Vec<usize> {
     v
 }
 
+/// Set when the unchecked-sequence-length findings (`C07:alloc:*`) are listed as known: 4 of 5 huge length values
+/// are then replaced by small boundary values, because every one of them aborts a forked child with the same known
+/// signature (milliseconds each) without exploring anything new. The replaced draws are counted.
+pub static AVOID_HUGE_LENGTHS: AtomicBool = AtomicBool::new(false);
+pub static AVOIDED: AtomicU64 = AtomicU64::new(0);
+
 fn length_special(orig: u32, remaining: u32, s: &mut Src) -> u32 {
+    let v = length_special_raw(orig, remaining, s);
+    if v >= 0x0010_0000 && AVOID_HUGE_LENGTHS.load(Ordering::Relaxed) && s.below(5) != 0 {
+        AVOIDED.fetch_add(1, Ordering::Relaxed);
+        return [0, 1, orig.wrapping_sub(1), orig.wrapping_add(1), remaining, remaining.wrapping_add(1)][s.below(6) as usize];
+    }
+    v
+}
+
+fn length_special_raw(orig: u32, remaining: u32, s: &mut Src) -> u32 {
     match s.below(16) {
         0 => 0,
         1 => 1,
